@@ -348,6 +348,101 @@ def optimum_dp(dataset, scheme, elems=None):
     return Optimum(cost_table(dataset, scheme, elems), elems)
 
 
+class BlockOptimum:
+    """Exact optimum of a dataset too large for the subset DP, whose universe splits into ordered `blocks` such that for
+    every x of an earlier block and y of a later block 'x before y' is a cheapest placement of the pair (checked here on
+    the cost table, never assumed: `ok` is False otherwise).
+
+    Any ranking with ties costs at least the cheapest placement on every cross pair and, on the pairs inside a block, at
+    least the block's own optimum (its restriction to the block is a ranking with ties of the block); the concatenation
+    of block optima reaches that bound, so   optimum = sum of cross 'before' costs + sum of block optima.
+    When 'before' is strictly cheapest on every cross pair (`strict`), a ranking is optimal exactly when it is a
+    concatenation, in block order, of one minimiser per block."""
+
+    def __init__(self, dataset, scheme, blocks, table=None):
+        self.blocks = [list(b) for b in blocks]
+        elems = [e for b in self.blocks for e in b]
+        self.elems = elems
+        self.table = table = table or cost_table(dataset, scheme, elems)
+        self.block_of = {e: i for i, b in enumerate(self.blocks) for e in b}
+        ok = strict = True
+        cross = F(0)
+        for i, bi in enumerate(self.blocks):
+            for bj in self.blocks[i + 1:]:
+                for x in bi:
+                    row = table[x]
+                    for y in bj:
+                        bef, aft, tie = row[y]
+                        if bef > aft or bef > tie:
+                            ok = False
+                        elif bef == aft or bef == tie:
+                            strict = False
+                        cross += bef
+        self.ok = ok
+        self.strict = ok and strict
+        self.cross = cross
+        self.dps = [Optimum(table, b) for b in self.blocks] if ok else []
+        self.value = cross + sum((dp.value for dp in self.dps), F(0)) if ok else None
+
+    def compatible(self, groups):
+        """no element of a later block sits in an earlier group than an element of an earlier block"""
+        gpos = {e: i for i, g in enumerate(groups) for e in g}
+        hi = -1
+        for b in self.blocks:
+            lo = min(gpos[e] for e in b)
+            if lo < hi:
+                return False
+            hi = max(hi, max(gpos[e] for e in b))
+        return True
+
+    def restricted(self, groups, bi):
+        blk = set(self.blocks[bi])
+        out = [[e for e in g if e in blk] for g in groups]
+        return [g for g in out if g]
+
+    def best_respecting(self, groups):
+        """minimum score over the rankings respecting the ordered partition `groups`; None when it cannot be decided
+        by the decomposition (groups that invert two blocks whose cross placement is not strict)"""
+        if not self.ok:
+            return None
+        if not self.compatible(groups):
+            return None
+        total = self.cross
+        for bi, dp in enumerate(self.dps):
+            total += dp.best_respecting(self.restricted(groups, bi))
+        return total
+
+    def optimum_violating(self, groups, cap=5000):
+        """strict decompositions only: an optimal ranking that does not respect `groups`, or None if every optimal
+        ranking respects them; 'unknown' when a block has more than cap minimisers"""
+        assert self.strict
+        picks = []
+        witness_block = None
+        for bi, dp in enumerate(self.dps):
+            mins = dp.minimisers(cap=cap)
+            if mins is None:
+                return "unknown"
+            picks.append(mins[0])
+            sub = self.restricted(groups, bi)
+            for r in mins:
+                if not respects(r, sub):
+                    witness_block = (bi, r)
+                    break
+        if witness_block is not None:
+            bi, r = witness_block
+            picks[bi] = r
+            return [list(b) for p in picks for b in p]
+        if not self.compatible(groups):
+            return [list(b) for p in picks for b in p]
+        return None
+
+    def nb_optima(self, cap=10 ** 9):
+        tot = 1
+        for dp in self.dps:
+            tot *= dp.count_minimisers()
+        return tot
+
+
 # ---------------------------------------------------------------------------------------------
 # local moves (C08)
 
@@ -707,6 +802,59 @@ def selftest():
         for _e, _d, nr in single_moves(r0):
             assert canon(nr) != canon(r0)
             assert sorted(map(repr, bucket_index(nr))) == sorted(map(repr, bucket_index(r0)))
+    # composite oracle against the plain DP on small block-structured datasets
+    decided = 0
+    for it in range(30):
+        sizes = [rng.randint(1, 3) for _ in range(rng.randint(2, 3))]
+        blocks, at = [], 0
+        for s in sizes:
+            blocks.append(list(range(at, at + s)))
+            at += s
+        ds = []
+        for i in range(rng.randint(2, 5)):
+            r = []
+            for blk in blocks:
+                if rng.random() < 0.2:
+                    continue
+                sub = list(blk)
+                rng.shuffle(sub)
+                for e in sub:
+                    if r and rng.random() < 0.15:
+                        r[-1].append(e)
+                    else:
+                        r.append([e])
+            ds.append(r)
+        el = [e for b in blocks for e in b]
+        if set(universe(ds)) != set(el):
+            continue
+        sch = [PRESETS["unifying"], PRESETS["induced"], [[0, 1, 1, 0, 1, 0], [.5, .5, 0, .5, .5, 0]]][it % 3]
+        bo = BlockOptimum(ds, sch, blocks)
+        dp = Optimum(bo.table, el)
+        if not bo.ok:
+            continue
+        decided += 1
+        assert bo.value == dp.value, (ds, sch, blocks)
+        groups = []
+        for b in dp.minimisers()[0]:
+            if groups and rng.random() < 0.5:
+                groups[-1] = groups[-1] + list(b)
+            else:
+                groups.append(list(b))
+        br = bo.best_respecting(groups)
+        assert br is None or br == dp.best_respecting(groups)
+        shuffled = list(groups)
+        rng.shuffle(shuffled)
+        br = bo.best_respecting(shuffled)
+        assert br is None or br == dp.best_respecting(shuffled), (ds, sch, blocks, shuffled)
+        if bo.strict:
+            assert bo.nb_optima() == dp.count_minimisers()
+            for gs in (groups, shuffled):
+                w = bo.optimum_violating(gs)
+                truth = [r for r in dp.minimisers() if not respects(r, gs)]
+                assert (w is None) == (not truth), (ds, sch, blocks, gs)
+                if w is not None:
+                    assert canon(w) in {canon(r) for r in truth}
+    assert decided >= 5, decided
     assert proportional(PRESETS["unifying"], [[0, 2, 2, 0, 2, 2], [2, 2, 0, 2, 2, 0]])
     assert not proportional(PRESETS["unifying"], [[0, 1, 1, 0, 1, 1], [3, 3, 0, 2, 2, 0]])
     assert nickname(PRESETS["unifying_half"]) is None and nickname(PRESETS["extended"]) == "EKS"
